@@ -18,6 +18,7 @@ func checkC05(c *Ctx) {
 	c.Rule("C05/R1", "dispatch table of the extractor constructor: .name -> Name.Base, .fullname -> Name.Full, /k -> the sub-name lookup with prefix k= and the GOMAXPROCS special case enabled exactly for /gomaxprocs, anything else -> the configuration lookup returning nil when the key is absent")
 	c.Rule("C05/R2", "one splitter: Base and Parts take the trailing -N split from the same helper; with a '/' present Base is the text before the first '/', untouched; Parts is a partition of the name (each segment starts where the previous ended, the -N part starts where the rest ends)")
 	c.Rule("C05/R3", "the -N splitter splits only at a '-' that is followed by at least one byte, all of them digits")
+	c.Rule("C05/R5", "absent is the empty string for filters too: the closure NewFilter builds for a key:value term returns FilterMatch.Match(extractor(result)) on every path")
 	c.Rule("C05/R4", "the sub-name lookup scans the parts in order and returns the text after the prefix of the first part that has it; the -N form is consulted only for /gomaxprocs and only on the last part")
 
 	p := mustLoad(c, loadOpts{}, "./benchfmt", "./benchproc")
@@ -25,6 +26,7 @@ func checkC05(c *Ctx) {
 	c05Base(c, p)
 	c05Splitter(c, p)
 	c05Lookup(c, p, "C05/R4")
+	c05AbsentIsEmpty(c, p, "C05/R5")
 }
 
 func c05Dispatch(c *Ctx, p *Prog) {
@@ -732,6 +734,72 @@ func c05Splitter(c *Ctx, p *Prog) {
 		}
 	})
 	c.Check(okDigits, R, "splitter:digits-only", site, "only digits are skipped while looking for the '-'", "the splitter does not restrict the suffix to digits")
+	// and exactly the digits: one step of the backward scan evaluated for sample bytes (comparisons of the scanned byte
+	// with constants are answered from the sample): on '0', '5' and '9' the scan goes on to the next byte; on '/', ':'
+	// and 'a' it stops without splitting
+	for _, lp := range naturalLoops(split) {
+		start := loopBodyStart(lp)
+		if start == nil {
+			continue
+		}
+		for _, sample := range []struct {
+			b     int64
+			digit bool
+		}{{'0', true}, {'5', true}, {'9', true}, {'/', false}, {':', false}, {'a', false}} {
+			sample := sample
+			decide := func(s *Sym) (bool, bool) {
+				if s.Op != "binop" || len(s.Args) != 2 {
+					return false, false
+				}
+				isByte := func(x *Sym) bool {
+					return (x.Op == "load" || x.Op == "index") && x.Type != nil && isInteger(x.Type) && strings.Contains(x.String(), "param:")
+				}
+				var a, b int64
+				switch {
+				case isByte(s.Args[0]) && s.Args[1].isConst() && s.Args[1].Const != nil && s.Args[1].Const.Kind() == constant.Int:
+					a = sample.b
+					b, _ = constant.Int64Val(s.Args[1].Const)
+				case isByte(s.Args[1]) && s.Args[0].isConst() && s.Args[0].Const != nil && s.Args[0].Const.Kind() == constant.Int:
+					a, _ = constant.Int64Val(s.Args[0].Const)
+					b = sample.b
+				default:
+					return false, false
+				}
+				switch s.Tok {
+				case token.EQL:
+					return a == b, true
+				case token.NEQ:
+					return a != b, true
+				case token.LSS:
+					return a < b, true
+				case token.LEQ:
+					return a <= b, true
+				case token.GTR:
+					return a > b, true
+				case token.GEQ:
+					return a >= b, true
+				}
+				return false, false
+			}
+			outs, why := e6Enumerate(func() *e6Interp {
+				return &e6Interp{PureCall: func(f *types.Func) bool { return true }, Decide: decide}
+			}, start, lp.Header, iterStop(lp, start), 64)
+			key := fmt.Sprintf("splitter:byte %q", rune(sample.b))
+			if why != "" {
+				c.Undecided(R, key, site, why)
+				continue
+			}
+			okS := len(outs) > 0
+			for _, o := range outs {
+				goesOn := o.Term == "exit" && o.Exit == lp.Header
+				if goesOn != sample.digit {
+					okS = false
+				}
+			}
+			c.Check(okS, R, key, site, fmt.Sprintf("digit=%v: the scan goes on=%v", sample.digit, sample.digit),
+				fmt.Sprintf("on the byte %q the backward scan for the -N suffix does not do what it does for a %s: a suffix containing that byte is (not) split off — e.g. Test-10 keeps its -10 in .name when '0' does not count as a digit", rune(sample.b), map[bool]string{true: "digit (go on)", false: "non-digit (stop without splitting)"}[sample.digit]))
+		}
+	}
 	// "exactly when": per scanned position, whenever the byte is '-' and something follows it, the iteration must end
 	// in the split return; a further condition on that path (position > 0, length limits) makes well-formed -N
 	// suffixes go unsplit for some names.
@@ -1280,4 +1348,73 @@ func c05Lookup(c *Ctx, p *Prog, R string) {
 	c.Check(suffixFirst, R, "lookup:gomaxprocs-suffix-first", site, "the -N suffix is consulted before the parts are scanned", "the -N suffix is consulted only after the scan for an explicit /gomaxprocs= segment: for a name carrying both (Test/gomaxprocs=8-4) the explicit segment wins, so /gomaxprocs is 8 where the decomposition's -N part says 4")
 	c.Check(okG && nDash == 1, R, "lookup:gomaxprocs-form", site, "the -N form is used only for /gomaxprocs, on the last part, when it starts with '-'", "the -N form of GOMAXPROCS is not restricted to /gomaxprocs and the last '-' part")
 	_ = constant.MakeBool
+}
+
+// c05AbsentIsEmpty (C05/R5 = C06/R16): a filter term sees an absent key as the empty string, exactly as a projection
+// does: in NewFilter the closure built for a key:value term answers with FilterMatch.Match applied to what the
+// extractor returned, on every path — it never answers by itself because the extractor returned nothing.
+func c05AbsentIsEmpty(c *Ctx, p *Prog, R string) {
+	nf := p.Fn("benchproc", "NewFilter")
+	if nf == nil {
+		c.Undecided(R, "anchor:NewFilter", "", "not found")
+		return
+	}
+	n := 0
+	var closures []*ssa.Function
+	var walk func(f *ssa.Function)
+	walk = func(f *ssa.Function) {
+		closures = append(closures, f)
+		for _, a := range f.AnonFuncs {
+			walk(a)
+		}
+	}
+	for _, f := range staticReach([]*ssa.Function{nf}, bprocPkg) {
+		if f.Parent() == nil {
+			walk(f)
+		}
+	}
+	seenCl := map[*ssa.Function]bool{}
+	for _, cl := range closures {
+		if seenCl[cl] {
+			continue
+		}
+		seenCl[cl] = true
+		var match *ssa.Call
+		eachInstr(cl, func(_ *ssa.BasicBlock, in ssa.Instruction) {
+			call, ok := in.(*ssa.Call)
+			if !ok {
+				return
+			}
+			co := calleeObj(&call.Call)
+			if co == nil || co.Name() != "Match" || !strings.HasSuffix(co.FullName(), "FilterMatch).Match") {
+				return
+			}
+			// its argument comes from a dynamic call (the extractor)
+			args := callArgs(&call.Call)
+			if len(args) < 2 {
+				return
+			}
+			if dc, ok := args[1].(*ssa.Call); ok && dc.Call.StaticCallee() == nil && !dc.Call.IsInvoke() {
+				match = call
+			}
+		})
+		if match == nil {
+			continue
+		}
+		n++
+		okAll, nRet := true, 0
+		for _, b := range cl.Blocks {
+			ret, ok := b.Instrs[len(b.Instrs)-1].(*ssa.Return)
+			if !ok || len(ret.Results) != 2 {
+				continue
+			}
+			nRet++
+			if retVal(ret, 1) != ssa.Value(match) {
+				okAll = false
+			}
+		}
+		c.Check(okAll && nRet > 0, R, fmt.Sprintf("%s:term-answers-by-match", fnName(cl)), p.pos(match.Pos()), "the term's answer is Match(extracted value) on every path",
+			"a key:value term can answer without asking the match (a path that returns a constant, e.g. when the extractor returned nil): an absent key is the empty string — 'key:\"\"', 'key:/^$/' and '-key:x' must treat a result without the key like one whose value is empty, as projections do")
+	}
+	c.Floor(R, "closures built for key:value terms", n, 1)
 }
